@@ -33,7 +33,7 @@ def ob_sealed(chk, ir):
             H.stub(f'(*{M}.RuntimeState).writeFailureResponse', am.st_fail)
             H.add_hints(lens(r'OpenIDConnectIDP\.Client\)$', [0]))
         try:
-            H, paths, path = sweep.run_route(ir, rt, sealed=True, budget_s=60, extra=extra, max_paths=20000)
+            H, paths, path = sweep.run_route(ir, rt, sealed=True, budget_s=240, extra=extra, max_paths=20000)
         except Unsupported as e:
             chk.obligation(f'sealed {rt["path"]}', '-', 'inconclusive', str(e)); continue
         if paths is None: skipped.append(rt['path']); continue
